@@ -1,0 +1,69 @@
+//go:build verif
+
+package consensus
+
+// Contracts for /verif (contract-based deductive verification). Comment-only.
+
+//@ pureiface ChainTip.Slot ChainTip.BlockNumber ChainTip.VRFOutput ChainTip.Density WindowBlockCounter.BlocksInWindow
+
+// C41: the Praos preference as a function of the tips' observable values:
+// nil is least; longer chain wins; then a tip with a VRF output beats one without; then the lower
+// VRF output (as a big-endian natural number) wins.
+//@ spec func vrfCmp(a ChainTip, b ChainTip) int = ite(len(a.VRFOutput()) == 0 && len(b.VRFOutput()) == 0, int(0),
+//@     ite(len(a.VRFOutput()) == 0, int(-1), ite(len(b.VRFOutput()) == 0, int(1),
+//@     ite(natseq(seq(a.VRFOutput())) < natseq(seq(b.VRFOutput())), int(1), ite(natseq(seq(a.VRFOutput())) > natseq(seq(b.VRFOutput())), int(-1), int(0))))))
+//@ spec func praosCmp(a ChainTip, b ChainTip) int = ite(a == nil && b == nil, int(0), ite(a == nil, int(-1), ite(b == nil, int(1),
+//@     ite(a.BlockNumber() > b.BlockNumber(), int(1), ite(a.BlockNumber() < b.BlockNumber(), int(-1), vrfCmp(a, b))))))
+
+//@ func (p *PraosChainSelector) Compare(a, b) (r)
+//@   props C41
+//@   pure
+//@   ensures def: r == praosCmp(a, b)
+
+//@ lemma praos_antisym: forall a ChainTip, b ChainTip :: praosCmp(a, b) == -praosCmp(b, a)
+//@   props C41
+//@ lemma praos_trans_gt: forall a ChainTip, b ChainTip, c ChainTip :: praosCmp(a, b) >= 0 && praosCmp(b, c) >= 0 ==> praosCmp(a, c) >= 0
+//@   props C41
+//@ lemma praos_trans_strict: forall a ChainTip, b ChainTip, c ChainTip :: praosCmp(a, b) > 0 && praosCmp(b, c) >= 0 ==> praosCmp(a, c) > 0
+//@   props C41
+//@ lemma praos_range: forall a ChainTip, b ChainTip :: praosCmp(a, b) == 0 || praosCmp(a, b) == 1 || praosCmp(a, b) == -1
+//@   props C41
+
+// A fork is deep when the tip is more than k blocks past the fork point (no wrap-around).
+//@ func (p *PraosChainSelector) IsDeepFork(fork, tipBlockNumber) (deep)
+//@   props C41
+//@   pure
+//@   ensures def: deep <==> u128(tipBlockNumber) > u128(fork.BlockNumber) + u128(p.SecurityParam)
+
+// Density comparison for deep forks: blocks in the genesis window when a window is configured and both
+// tips can count them, otherwise the legacy density ratio.
+//@ spec func useWindow(p *PraosChainSelector, a ChainTip, b ChainTip) bool = p.GenesisWindowSlots > 0 && implements(a, "WindowBlockCounter") && implements(b, "WindowBlockCounter")
+//@ spec func densCmp(p *PraosChainSelector, a ChainTip, b ChainTip, fork ForkPoint) int = ite(useWindow(p, a, b),
+//@     ite(a.BlocksInWindow(fork.Slot, p.GenesisWindowSlots) > b.BlocksInWindow(fork.Slot, p.GenesisWindowSlots), int(1),
+//@     ite(b.BlocksInWindow(fork.Slot, p.GenesisWindowSlots) > a.BlocksInWindow(fork.Slot, p.GenesisWindowSlots), int(-1), int(0))),
+//@     ite(a.Density(fork.Slot) > b.Density(fork.Slot), int(1), ite(b.Density(fork.Slot) > a.Density(fork.Slot), int(-1), int(0))))
+//@ spec func deepFork(p *PraosChainSelector, fork ForkPoint, tip uint64) bool = u128(tip) > u128(fork.BlockNumber) + u128(p.SecurityParam)
+//@ spec func fullCmp(p *PraosChainSelector, a ChainTip, b ChainTip, fork ForkPoint, tip uint64) int = ite(a == nil && b == nil, int(0), ite(a == nil, int(-1), ite(b == nil, int(1),
+//@     ite(deepFork(p, fork, tip) && densCmp(p, a, b, fork) != 0, densCmp(p, a, b, fork), praosCmp(a, b)))))
+
+//@ func (p *PraosChainSelector) compareDensity(a, b, fork) (r)
+//@   props C41
+//@   pure
+//@   requires nonnil: a != nil && b != nil && p != nil
+//@   ensures def: r == densCmp(p, a, b, fork)
+
+//@ func (p *PraosChainSelector) CompareWithDensity(a, b, fork, tipBlockNumber) (r)
+//@   props C41
+//@   pure
+//@   requires recv: p != nil
+//@   ensures def: r == fullCmp(p, a, b, fork, tipBlockNumber)
+
+//@ lemma full_antisym: forall p *PraosChainSelector, a ChainTip, b ChainTip, f ForkPoint, t uint64 :: fullCmp(p, a, b, f, t) == -fullCmp(p, b, a, f, t)
+//@   props C41
+// Transitivity needs one density metric for all three tips (all or none can count window blocks) and no NaN ratio.
+//@ lemma full_trans: forall p *PraosChainSelector, a ChainTip, b ChainTip, c ChainTip, f ForkPoint, t uint64 ::
+//@     implements(a, "WindowBlockCounter") == implements(b, "WindowBlockCounter") && implements(b, "WindowBlockCounter") == implements(c, "WindowBlockCounter") &&
+//@     !isnan(a.Density(f.Slot)) && !isnan(b.Density(f.Slot)) && !isnan(c.Density(f.Slot)) &&
+//@     a != nil && b != nil && c != nil &&
+//@     fullCmp(p, a, b, f, t) >= 0 && fullCmp(p, b, c, f, t) >= 0 ==> fullCmp(p, a, c, f, t) >= 0
+//@   props C41
